@@ -6,6 +6,7 @@
 -/
 import AmiscProofs.StoreProofs
 import AmiscProofs.IndexInv
+import AmiscModel.Generated.Logic
 
 namespace Amisc.C13
 
@@ -24,6 +25,10 @@ structure AState where
 def microSteps (batch : List (Idx × Idx)) : List MicroStep :=
   batch.map (fun ab => MicroStep.refine ab.1 ab.2) ++ [MicroStep.modelCall] ++
   (List.range batch.length).map MicroStep.store ++ [MicroStep.bookkeeping]
+
+/-- the order assumed by `microSteps` (index-set / weight bookkeeping LAST) is the order of the statements of the current
+    `Component.activate_index`: regenerated from the source on every run (`harness/translate/tr_logic.py`) -/
+theorem code_commits_last : Gen.activateCommitLast = true := by decide
 
 def applyMicro (box req : Idx) (design : List (Idx × List Coord)) (s : AState) : MicroStep → AState
   | .refine a b => { s with g := (sgRefine s.g a b).1 }
